@@ -53,13 +53,13 @@ def applyPayload (g : Gen) (sp : SpecGen) (out sout : List String) (parts : List
     Gen × SpecGen × List String × List String :=
   let head := parts.headD ""
   let form := if parts.length == 3 then head.drop 1 else head
-  if !(["u", "a", "i", "b", "A"].contains form.toString) then (g, sp, "bad-op" :: out, sout) else
+  if !(["u", "a", "i", "b", "A", "j", "k", "K", "n"].contains form.toString) then (g, sp, "bad-op" :: out, sout) else
   match payloadOf parts with
   | none => (g, sp, "bad-op" :: out, sout)
   | some bs =>
     let g' :=
-      if form == "u" || form == "a" then g.update bs
-      else if form == "i" then g.updateByIter bs
+      if form == "u" || form == "a" || form == "n" then g.update bs
+      else if form == "i" || form == "j" || form == "k" || form == "K" then g.updateByIter bs  -- any size hint
       else bs.foldl Gen.updateByByte g   -- "b" (update_by_byte) and "A" (+= u8)
     let sp' := if sp.payload.size + bs.length ≤ specLimit
                then { sp with payload := sp.payload.append bs.toArray } else { sp with ok := false }
